@@ -788,6 +788,15 @@ func cdrCheck(t *testing.T, prop string) int {
 			rep.Finding(f.Rule, f.Detail, map[string]any{"case": f.Detail})
 		}
 	}
+	if prop == "C03" {
+		per, sexecs, sex := c03Schedules(rep, pool)
+		if !sex {
+			exhaustive = false
+		}
+		rep.Cov["concurrent_requests"] = per
+		rep.Cov["schedules"] = sexecs
+		total.Transitions += sexecs
+	}
 	if len(total.Samples) > 6 {
 		total.Samples = total.Samples[:6]
 	}
